@@ -1,5 +1,6 @@
 import EbisimProofs.Lemmas.Consts
 import EbisimProofs.Props.C13
+import EbisimProofs.Props.C12
 import EbisimProofs.Lemmas.Comparison
 import EbisimModel.Model.Device
 import Mathlib.Analysis.SpecialFunctions.Log.Base
@@ -513,5 +514,77 @@ example : (0 : ℝ) < 1e-4 ∧ 2 * (1e-4 : ℝ) < 5e-3 ∧ 12 ≤ 400 ∧ (5e-3 
   rw [h5]
   apply mul_le_mul_of_nonneg_left _ (by norm_num)
   exact le_trans (by norm_num : (25 : ℝ) ≤ 27) h27
+
+/-! ## the stored potential itself (last Newton iterate) -/
+
+theorem loop_some (B : BPIn ℝ) (tol : ℝ) : ∀ (fuel : ℕ) (phi : List ℝ) (it : ℕ) (last : Option (StepOut ℝ)),
+    ∃ o, (loop B tol (fuel + 1) phi it last).2.1 = some o := by
+  intro fuel
+  induction fuel with
+  | zero =>
+    intro phi it last
+    simp only [loop]
+    split_ifs <;> exact ⟨_, rfl⟩
+  | succ f ih =>
+    intro phi it last
+    rw [loop]
+    split_ifs
+    · exact ⟨_, rfl⟩
+    · exact ih _ _ _
+
+/-- the stored trap potential is the output of one Newton update `step` of the device's e-beam problem -/
+theorem trap_potential_is_step (I : Input ℝ) :
+    ∃ phiPrev, (get I).phi = (step (deviceBP I) phiPrev).phi := by
+  rw [trap_potential_is_loop]
+  obtain ⟨o, ho⟩ := loop_some (deviceBP I) 1e-3 499 (firstGuessEbeam (get I).grid I.current I.r_e I.e_kin ionFree) 0 none
+  obtain ⟨pp, e1, e2, _⟩ := C13.converged_exit (deviceBP I) 1e-3 500 _ 0 none o ho (by norm_num)
+  refine ⟨pp, ?_⟩
+  rw [← e1]
+  simp only [finish]
+  rw [show loop (deviceBP I) 1e-3 500 (firstGuessEbeam (get I).grid I.current I.r_e I.e_kin ionFree) 0 none =
+    ((loop (deviceBP I) 1e-3 500 (firstGuessEbeam (get I).grid I.current I.r_e I.e_kin ionFree) 0 none).1,
+     (loop (deviceBP I) 1e-3 500 (firstGuessEbeam (get I).grid I.current I.r_e I.e_kin ionFree) 0 none).2.1,
+     (loop (deviceBP I) 1e-3 500 (firstGuessEbeam (get I).grid I.current I.r_e I.e_kin ionFree) 0 none).2.2) from rfl]
+  rw [ho]
+  simp only
+  exact e2
+
+theorem fdNonuniform_getLast? (r : List ℝ) (hg : GridMP r) : (fdNonuniform r).getLast? = some (0, 1, 0) := by
+  match r, hg with
+  | r0 :: r1 :: rest, _ =>
+    simp only [fdNonuniform]
+    rw [List.getLast?_cons_of_ne_nil (by cases rest <;> simp [fdInterior])]
+    exact C12.fdInterior_getLast? _ _ _
+
+/-- **the stored trap potential itself never decreases outward and is nowhere positive** — for the potential `Device.get` stores (the last
+Newton iterate `step φ_prev`, `trap_potential_is_step`), on every device grid, provided the last Newton system has non-vanishing
+pivots, the electron energy `E + φ_prev` is positive at every node and the last correction satisfies `y ≥ −2(E + φ_prev)` (implied by the
+stopping test below the virtual-cathode limit). Zero at the wall: C13 `loop_wall_zero`; minimum on the axis follows. -/
+theorem trap_potential_returned_well (I : Input ℝ) (phiPrev : List ℝ)
+    (hre : 0 < I.r_e) (hrd : 2 * I.r_e < I.r_dt) (hn : 12 ≤ I.n_grid)
+    (hmax : I.r_dt ≤ 2 * I.r_e * 3 ^ (4 * (I.n_grid / 6) - 1)) (hcur : 0 ≤ I.current)
+    (hstep : (get I).phi = (step (deviceBP I) phiPrev).phi) (hlen : phiPrev.length = (get I).grid.length)
+    (hp : PivotsOk 0 (newtonRows (deviceBP I).ldu (step (deviceBP I) phiPrev).jd
+      (targetFun none (deviceBP I).ldu phiPrev (step (deviceBP I) phiPrev).b)))
+    (hpos : ∀ p ∈ phiPrev, 0 < I.e_kin + p)
+    (hy : ∀ i (h1 : i < phiPrev.length) (h2 : i < (step (deviceBP I) phiPrev).y.length),
+      -(2 * (I.e_kin + phiPrev[i])) ≤ ((step (deviceBP I) phiPrev).y)[i]) :
+    List.Pairwise (· ≤ ·) (get I).phi ∧ ∀ v ∈ (get I).phi, v ≤ 0 := by
+  have hg : GridMP (get I).grid := device_grid_admissible I.r_e I.r_dt I.n_grid hre hrd hn hmax
+  obtain ⟨hglen, _, _, _, hlastg⟩ := grid_spec I.r_e I.r_dt I.n_grid hre hrd (by omega)
+  have hgl : (get I).grid.getLast? = some I.r_dt := by
+    show (grid I.r_e I.r_dt I.n_grid).getLast? = _
+    rw [List.getLast?_eq_getElem?, hglen]; exact hlastg
+  obtain ⟨hcl, hcz⟩ := C13.beam_density_premise (get I).grid I.current I.r_e I.r_dt hgl (by linarith)
+  have h2 := hg.two_le
+  have hldul : (get I).ldu.length = (get I).grid.length := fdNonuniform_length' _ hg
+  have hw : (step (deviceBP I) phiPrev).phi.getLast? = some 0 :=
+    C13.step_wall_zero (deviceBP I) phiPrev 0 (by omega) (by simp [deviceBP, hlen]) (by simp [deviceBP, hlen, hldul])
+      (fdNonuniform_getLast? _ hg) (fun h => absurd rfl h) (fun _ => ⟨by simp [deviceBP, hcl, hlen], hcz⟩)
+  rw [hstep]
+  refine C13.ionfree_iterate_well (deviceBP I) phiPrev rfl ?_ hg rfl hlen hcl hcz (C13.beamDensity_nonpos _ _ _ hcur) hp hpos hy hw
+  intro s hs
+  simp only [deviceBP, ionFree, List.mem_singleton] at hs
+  subst hs; simp
 
 end C14
